@@ -10,11 +10,12 @@ git -C /repo archive HEAD | tar -x -C $W/base_repo
 git -C /verif archive HEAD | tar -x -C $W/base_verif
 cp /verif/bin/gvc $W/gvc
 props=$(python3 -c "import json;print(' '.join(c['property_id'] for c in json.load(open('/verif/MANIFEST.json'))['checks']))")
-out=/verif/seeded/RESULTS.tsv
+out=${OUT:-/verif/seeded/RESULTS.tsv}
 : > $out.tmp
 for d in /verif/seeded/*/; do
   id=$(basename $d)
   [ -f $d/patch.diff ] || continue
+  if [ -n "${ONLY:-}" ]; then case " $ONLY " in *" $id "*) ;; *) continue;; esac; fi
   rm -rf $W/repo $W/verif
   rsync -a $W/base_repo/ $W/repo/
   rsync -a --exclude evidence --exclude replays --exclude seeded $W/base_verif/ $W/verif/
